@@ -1,7 +1,7 @@
 /* C07 driver.
  *   c07_drv hio <tmpfile>  : stdin "D <F|M|C> <datahex>" then ops (R8 R8S R16L R16B R24L R24B R32L R32B | RB size num | SK off whence | TL | EF | ER), "GO" ends a case
  *                            per op: "val byteshex"  (val canonical: signed for R8S; all-ones stays unsigned)
- *   c07_drv load           : stdin "<entry LP|LM|LF|LC|TP|TM|TF|TC> <path>" -> "RET n" + dump (loads) or "RET n name type" (tests) + PCM digest of 40 frames
+ *   c07_drv load           : stdin "<entry LP|LM|LF|LC|TP|TM|TF|TC|QP..QC (into a loaded context)|RF|RC (test, then load, same stream, no rewind)> <path>" -> "RET n" + dump (loads) or "RET n name type" (tests) + PCM digest of 40 frames
  */
 #include "vdump.h"
 #include "hio.h"
@@ -75,6 +75,8 @@ static int load_mode(void)
 		c = xmp_create_context();
 		if (e[1] == 'M') buf = vf_read_file(path, &sz);
 		if (e[1] == 'F' || e[1] == 'C') f = fopen(path, "rb");
+		/* entries RF / RC: the stream is first handed to the test entry point and then, NOT rewound, to the load entry point */
+		if (e[0] == 'R' && f) { if (e[1] == 'F') xmp_test_module_from_file(f, &ti); else xmp_test_module_from_callbacks(f, cb, &ti); e[0] = 'L'; }
 		if (e[0] == 'Q') { if (!preload_path || xmp_load_module(c, (char *)preload_path) < 0) { puts("RET ?"); xmp_free_context(c); continue; } e[0] = 'L'; }
 		if (!strcmp(e, "LP")) ret = xmp_load_module(c, path);
 		else if (!strcmp(e, "LM")) ret = xmp_load_module_from_memory(c, buf, sz);
